@@ -97,6 +97,11 @@ def _landmark_range(R: Draw, doc_node: Any, n: int, span: int = 20) -> tuple[int
             before = [m for m in lm if b - 30 <= m <= b]
             return (R.choice(before) if before else b), b
     a = R.choice(lm)
+    if R.bool(0.2):
+        # start a character or two INTO a textblock (not on a landmark), end on a landmark further on
+        starts = [pos + 1 + k for pos, nd in _node_positions(doc_node) if nd.is_textblock for k in (1, 2) if k <= nd.content.size]
+        if starts:
+            a = R.choice(starts)
     later = [m for m in lm if a <= m <= a + span]
     b = R.choice(later) if later and R.bool(0.85) else R.int(a, min(n, a + R.int(0, span)))
     if R.bool(0.15):
@@ -169,6 +174,18 @@ def gen_op(R: Draw, g: DocGen, lib: Any, doc_node: Any, kinds: list[str] | None 
         return {"op": kind, "pos": R.int(0, n), "content": _node_content(R, g)}
     if kind in ("delete", "delete_range"):
         a, b = _landmark_range(R, doc_node, n) if use and R.bool(0.45) else _positions(R, n, 14)
+        if use and R.bool(0.2):
+            # from a few characters into one textblock to somewhere inside a LATER textblock that is nested deeper (or
+            # shallower): the ends of the range sit at different depths and neither is on a node boundary
+            tbs = [(pos, nd, doc_node.resolve(pos + 1).depth) for pos, nd in _node_positions(doc_node) if nd.is_textblock and nd.content.size]
+            if len(tbs) >= 2:
+                i = R.int(0, len(tbs) - 2)
+                pos1, nd1, d1 = tbs[i]
+                later = [t for t in tbs[i + 1 :] if t[2] != d1] or tbs[i + 1 :]
+                pos2, nd2, d2 = R.choice(later)
+                k = abs(d2 - d1) if d2 != d1 and R.bool(0.7) else R.int(0, 2)
+                a = pos1 + 1 + min(k, nd1.content.size)
+                b = pos2 + 1 + R.int(0, nd2.content.size)
         return {"op": kind, "from": a, "to": b}
     if kind == "replace_range_with":
         a, b = _landmark_range(R, doc_node, n) if use and R.bool(0.45) else _positions(R, n)
